@@ -1,6 +1,7 @@
 package checks
 
 import (
+	"bytes"
 	"errors"
 	"fmt"
 	"testing"
@@ -70,8 +71,87 @@ func genPipeline(t *sim.Tape, c pipelineCfg) []*wl.Req {
 	return reqs
 }
 
+// runC03Volume is the long-lived connection: one connection carries more than 2^30 bytes of requests in total
+// (each request far below any per-request limit); every one of them is answered, the last like the first.
+func runC03Volume(tape *sim.Tape, o *Outcome) *Outcome {
+	c := newConnRun(tape, o)
+	c.start()
+	const argLen = 8 << 20
+	nreq := 131 + tape.Draw(6, "volume-requests") // 131 x 8 MiB > 2^30
+	req := resp.Cmd("VOLUME", string(bytes.Repeat([]byte{'v'}, argLen)))
+	piece := []int{len(req), 1 << 20, 65536}[tape.Draw(3, "volume-piece")]
+	replies, total := 0, 0
+	for i := 0; i < nreq && len(o.Viol) == 0; i++ {
+		c.P.Ends[0].Write(req)
+		total += len(req)
+		for guard := 0; guard < 1<<16; guard++ {
+			c.S.Wait()
+			if t := c.srvTask(); t != nil && c.runnable(t) {
+				c.S.Release(t)
+				continue
+			}
+			n := c.P.Inflight(0)
+			if n == 0 {
+				break
+			}
+			if n > piece {
+				n = piece
+			}
+			c.P.Deliver(0, n)
+		}
+		sim.Progress.Add(1)
+		out := c.P.Take(1)
+		vals, _, rest, err := resp.DecodeAll(out)
+		if err != nil || rest != 0 {
+			o.violate("c03:reply-undecodable", "long-lived connection: reply to request %d is not RESP (%v, %d trailing bytes): %q", i, err, rest, clipS(string(out), 80))
+			break
+		}
+		replies += len(vals)
+		if c.panicVal != nil {
+			o.violate("c03:panic:"+repoFrame(c.panicStk), "long-lived connection: request %d made the connection loop panic: %v", i, c.panicVal)
+			break
+		}
+		if replies != i+1 {
+			kind := "c03:no-reply:"
+			if c.done {
+				kind = "c03:closed-without-reply:"
+			}
+			o.violate(kind+"long-lived-connection", "request %d (an unknown command with one %d-byte argument) fully delivered after %d bytes in total on this connection, but %d replies so far (server %s, returned %v)", i, argLen, total, replies, map[bool]string{true: "ended", false: "waiting for input"}[c.done], c.srvErr)
+			break
+		}
+		if len(vals) != 1 || vals[0].K != resp.Error {
+			o.violate("c03:unknown-not-error", "long-lived connection: request %d answered with %v", i, vals)
+			break
+		}
+	}
+	c.S.Logf("sched", "volume run: %d requests, %d bytes, %d replies", nreq, total, replies)
+	if len(o.Viol) == 0 {
+		c.P.Ends[0].CloseWrite()
+		c.pump(nil)
+		if !c.done {
+			o.violate("c03:loop-survives-eof", "connection loop still running after end of stream")
+		}
+	}
+	o.stat("long_lived_connection_runs", 1)
+	o.stat("long_lived_connection_bytes", total)
+	c.finish()
+	o.Sched = fmt.Sprintf("volume|%d|%d", nreq, piece)
+	o.Nontrivial = true
+	o.Sample = map[string]any{"cfg": "long-lived connection", "requests": nreq, "bytes": total}
+	return o
+}
+
 func runC03(t *testing.T, tape *sim.Tape, tier string) *Outcome {
 	o := &Outcome{}
+	// the first run of a batch is the long-lived connection (more than 2^30 request bytes on one connection)
+	if tape.DrawOr(2, "volume", func() int {
+		if curRun.Load() == 0 {
+			return 1
+		}
+		return 0
+	}) == 1 {
+		return runC03Volume(tape, o)
+	}
 	cfg := drawPipelineCfg(tape, tier)
 	reqs := genPipeline(tape, cfg)
 	// pre-drawn handler fault plan (no draws inside server goroutines)
@@ -272,7 +352,7 @@ func init() {
 	register(&Check{
 		ID: "C03", Bubble: true, Run: runC03,
 		Runs:   map[string]int{"quick": 40000, "thorough": 1500000},
-		Rule:   "a case is one (pipeline, delivery schedule) pair: 1..12 (thorough 1..40) requests over all 67 commands with valid/ill-formed/unknown shapes, swarm-chosen chunking (whole, single bytes, random, structural), batching (lock-step, pipelined, mixed) and handler-error rate; distinct = distinct (config, chunk-size-bucket sequence) signatures; non-trivial = chunked or pipelined delivery",
+		Rule:   "a case is one (pipeline, delivery schedule) pair: 1..12 (thorough 1..40) requests over all 67 commands with valid/ill-formed/unknown shapes, swarm-chosen chunking (whole, single bytes, random, structural), batching (lock-step, pipelined, mixed) and handler-error rate; run 0 of a batch is one long-lived connection with 131..136 requests of 8 MiB each (more than 2^30 bytes on one connection); distinct = distinct (config, chunk-size-bucket sequence) signatures; non-trivial = chunked or pipelined delivery",
 		Real:   []string{"redis.Server connection loop (receive via VerifServeConn), dispatch, executors, redis/proto parser and serializer"},
 		Stub:   []string{"transport: simulated net.Conn", "handler: recording double with injected errors"},
 		Assume: []string{"a spin is noticed by the real-time watchdog (20 s) and confirmed by replay"},
